@@ -556,12 +556,13 @@ func (r *runT) checkAll(touched int) error {
 	return nil
 }
 
-type gens map[string]int64
+// gens fingerprints every object of a store: write generation, update time (Touch) and size
+type gens map[string]string
 
 func snapshot(b *memstore.Backend) gens {
 	out := gens{}
 	for k, o := range b.Snapshot() {
-		out[k] = o.Gen
+		out[k] = fmt.Sprintf("%d/%d/%d", o.Gen, o.Updated.UnixNano(), len(o.Data))
 	}
 	return out
 }
